@@ -1104,7 +1104,7 @@ static std::vector<char32_t> cp_alphabet() {
           0xD800, 0xDFFF, 0xFFFD, 0xFFFF, 0x10000, 0x1F600, 0x2F800, 0xFB01, 0x3002, 0x10FFFF, 0x110000, 0x7FFFFFFF, 0xFFFFFFFF};
 }
 static std::vector<std::string> state_menu(bool thorough) {
-  std::vector<std::string> v = {"http://example.com/", "https://u:p@example.com:8080/a/b?q#f", "http://[::1]:81/p", "http://1.2.3.4/", "file:///C:/x/y",
+  std::vector<std::string> v = {"http://example.com/", "https://u:p@example.com:8080/a/b?q#f", "a:/.//p?q#", "http://[::1]:81/p", "http://1.2.3.4/", "file:///C:/x/y",
                                 "file://host/s/f", "a://h:1/p?q#f", "a:///p", "a:/.//p", "a:/p/q", "a:o p ?q", "mailto:u@h?s=1#f"};
   if (thorough) for (const char* s : {"https://" EACUTE "sp.example/", "ws://h/", "a://u:p@h/p", "blob:https://h/id", "http://h/?#", "a:"}) v.push_back(s);
   return v;
